@@ -335,35 +335,34 @@ impl UnusedVariableVisitor {
             let name_position = tp.position.clone();
 
             let removal_position = if all_unused {
-                // Remove entire <...> section. The `<` is right before the first
-                // type param, and `>` is right after the last one (before open paren).
-                let first_tp = &params[0].0;
-                let last_tp = &params[params.len() - 1].0;
-                // Start at the end of the function's name, so any
-                // whitespace around `<` goes too. Without a name,
-                // `<` is one char before the first type param.
-                let (start_offset, line_number, column) = match fun_name_position {
-                    Some(fun_name_position) => (
-                        fun_name_position.end_offset,
-                        fun_name_position.end_line_number,
-                        fun_name_position.end_column,
-                    ),
-                    None => (
-                        first_tp.position.start_offset - 1,
-                        first_tp.position.line_number,
-                        first_tp.position.column.saturating_sub(1),
-                    ),
-                };
-                Position {
-                    start_offset,
-                    // End at `>` which is right before the open paren
-                    end_offset: open_paren.start_offset,
-                    line_number,
-                    end_line_number: last_tp.position.end_line_number,
-                    column,
-                    end_column: open_paren.column,
-                    path: Rc::clone(&tp.position.path),
-                    vfs_path: tp.position.vfs_path.clone(),
+                // Remove the entire <...> section, up to the open paren.
+                match fun_name_position {
+                    // Start at the end of the function's name, so any
+                    // whitespace around `<` goes too.
+                    Some(fun_name_position) => Position {
+                        start_offset: fun_name_position.end_offset,
+                        end_offset: open_paren.start_offset,
+                        line_number: fun_name_position.end_line_number,
+                        end_line_number: open_paren.line_number,
+                        column: fun_name_position.end_column,
+                        end_column: open_paren.column,
+                        path: Rc::clone(&tp.position.path),
+                        vfs_path: tp.position.vfs_path.clone(),
+                    },
+                    None => {
+                        let first_tp = &params[0].0;
+                        Position {
+                            // Start at `<` which is one char before the first type param
+                            start_offset: first_tp.position.start_offset - 1,
+                            end_offset: open_paren.start_offset,
+                            line_number: first_tp.position.line_number,
+                            end_line_number: open_paren.line_number,
+                            column: first_tp.position.column.saturating_sub(1),
+                            end_column: open_paren.column,
+                            path: Rc::clone(&tp.position.path),
+                            vfs_path: tp.position.vfs_path.clone(),
+                        }
+                    }
                 }
             } else if idx == 0 {
                 // First param but not all unused: remove "T, " (param and trailing comma+space)
